@@ -161,6 +161,7 @@ func (s *Scorch) persisterLoop() {
 OUTER:
 	for {
 		atomic.AddUint64(&s.stats.TotPersistLoopBeg, 1)
+		s.verifPoint("persist.loopTop")
 
 		select {
 		case <-s.closeCh:
@@ -195,8 +196,10 @@ OUTER:
 
 		if ourSnapshot != nil {
 			startTime := time.Now()
+			s.verifPoint("persist.gotSnapshot")
 
 			err := s.persistSnapshot(ourSnapshot, s.persisterOptions)
+			s.verifPoint("persist.snapshotDone")
 			for _, ch := range ourPersisted {
 				if err != nil {
 					ch <- err
@@ -236,6 +239,7 @@ OUTER:
 			for i := range ourPersistedCallbacks {
 				ourPersistedCallbacks[i](err)
 			}
+			s.verifPoint("persist.waitersReleased")
 
 			atomic.StoreUint64(&s.stats.LastPersistedEpoch, ourSnapshot.epoch)
 
@@ -279,6 +283,7 @@ OUTER:
 		}
 
 		atomic.AddUint64(&s.stats.TotPersistLoopWait, 1)
+		s.verifPoint("persist.idle")
 
 		select {
 		case <-s.closeCh:
@@ -522,7 +527,9 @@ func (s *Scorch) persistSnapshotMaybeMerge(snapshot *IndexSnapshot, po *persiste
 
 	// now merge each batch into a new segment, and persist all of them to disk,
 	// and construct a new snapshot with the merged segments
+	s.verifPoint("persist.memmerge.begin")
 	newSnapshot, newSegmentIDs, err := s.mergeAndPersistInMemorySegments(flushSet, po)
+	s.verifPoint("persist.memmerge.afterIntro")
 	if err != nil {
 		return false, err
 	}
@@ -790,6 +797,7 @@ func prepareBoltSnapshot(snapshot *IndexSnapshot, tx *util.BoltTxImpl, path stri
 }
 
 func (s *Scorch) persistSnapshotDirect(snapshot *IndexSnapshot) (err error) {
+	s.verifPoint("persist.direct.begin")
 	// start a write transaction
 	tx, err := s.rootBolt.Begin(true)
 	if err != nil {
@@ -806,6 +814,7 @@ func (s *Scorch) persistSnapshotDirect(snapshot *IndexSnapshot) (err error) {
 	if err != nil {
 		return err
 	}
+	s.verifPoint("persist.direct.segmentWritten")
 
 	// we need to swap in a new root only when we've persisted 1 or
 	// more segments -- whereby the new root would have 1-for-1
@@ -838,6 +847,7 @@ func (s *Scorch) persistSnapshotDirect(snapshot *IndexSnapshot) (err error) {
 			applied:   make(notificationChan),
 		}
 
+		s.verifPoint("persist.direct.beforeIntro")
 		select {
 		case <-s.closeCh:
 			return segment.ErrClosed
@@ -846,17 +856,21 @@ func (s *Scorch) persistSnapshotDirect(snapshot *IndexSnapshot) (err error) {
 
 		// blockingly wait until the persist has been applied
 		<-persist.applied
+		s.verifPoint("persist.direct.afterIntro")
 	}
 
+	s.verifPoint("persist.direct.beforeCommit")
 	err = tx.Commit()
 	if err != nil {
 		return err
 	}
+	s.verifPoint("persist.direct.afterCommit")
 
 	err = s.rootBolt.Sync()
 	if err != nil {
 		return err
 	}
+	s.verifPoint("persist.direct.afterSync")
 
 	// allow files to become eligible for removal after commit, such
 	// as file segments from snapshots that came from the merger
@@ -1276,6 +1290,8 @@ func (s *Scorch) removeBoltFileWriterIDs(ids map[string]struct{}) error {
 }
 
 func (s *Scorch) removeOldData() {
+	s.verifPoint("purge.begin")
+	defer s.verifPoint("purge.end")
 	removed, err := s.removeOldBoltSnapshots()
 	if err != nil {
 		s.fireAsyncError(NewScorchError(
@@ -1417,11 +1433,13 @@ func (s *Scorch) removeOldBoltSnapshots() (numRemoved int, err error) {
 		return 0, err
 	}
 	defer func() {
+		s.verifPoint("purge.bolt.beforeCommit")
 		if err == nil {
 			err = tx.Commit()
 		} else {
 			_ = tx.Rollback()
 		}
+		s.verifPoint("purge.bolt.afterCommit")
 		if err == nil {
 			err = s.rootBolt.Sync()
 		}
@@ -1487,10 +1505,12 @@ func (s *Scorch) removeOldZapFiles() error {
 		fname := f.Name()
 		if filepath.Ext(fname) == ".zap" {
 			if _, exists := liveFileNames[fname]; !exists && !s.ineligibleForRemoval[fname] && (s.copyScheduled[fname] <= 0) {
+				s.verifPoint("purge.zap.beforeRemove:" + fname)
 				err := os.Remove(s.path + string(os.PathSeparator) + fname)
 				if err != nil {
 					log.Printf("got err removing file: %s, err: %v", fname, err)
 				}
+				s.verifPoint("purge.zap.afterRemove:" + fname)
 			}
 		}
 	}
